@@ -28,6 +28,10 @@ func main() {
 		cmdDrive(os.Args[2:])
 	case "replay":
 		cmdReplay(os.Args[2:])
+	case "genesis":
+		cmdGenesis(os.Args[2:])
+	case "selection":
+		cmdSelection(os.Args[2:])
 	case "version":
 		fmt.Println("saoharness 1")
 	default:
@@ -104,12 +108,7 @@ func cmdDrive(args []string) {
 	start := time.Now()
 	halted := 0
 	for i := 0; i < *traces; i++ {
-		cfg := chain.DefaultConfig()
-		if *cfgJSON != "" {
-			if err := json.Unmarshal([]byte(*cfgJSON), &cfg); err != nil {
-				die("bad cfg: %v", err)
-			}
-		}
+		cfg := loadCfg(*cfgJSON)
 		s := *seed*1000 + int64(i)
 		cfg.Salt = s%997 + 1
 		c, err := chain.New(cfg)
@@ -138,6 +137,162 @@ func cmdDrive(args []string) {
 	fmt.Printf("DONE traces=%d halted=%d wall=%.1fs\n", *traces, halted, time.Since(start).Seconds())
 }
 
+func loadCfg(cfgJSON string) chain.Config {
+	cfg := chain.DefaultConfig()
+	if cfgJSON != "" {
+		if err := json.Unmarshal([]byte(cfgJSON), &cfg); err != nil {
+			die("bad cfg: %v", err)
+		}
+	}
+	return cfg
+}
+
+// genesis: write {cfg, post} of a fresh chain (the initial state of the bounded models).
+func cmdGenesis(args []string) {
+	fs := flag.NewFlagSet("genesis", flag.ExitOnError)
+	cfgJSON := fs.String("cfg", "", "config overrides (JSON)")
+	out := fs.String("out", "genesis.json", "output file")
+	fs.Parse(args)
+	c, err := chain.New(loadCfg(*cfgJSON))
+	if err != nil {
+		die("chain.New: %v", err)
+	}
+	b, _ := json.Marshal(map[string]interface{}{"cfg": c.SpecConfig(), "post": c.Project()})
+	if err := os.WriteFile(*out, b, 0o644); err != nil {
+		die("%v", err)
+	}
+}
+
+// replay: execute a list of abstract events (JSON array, or the "ev" of ndjson trace lines) on the
+// real code and record the trace.
 func cmdReplay(args []string) {
-	die("replay: not built yet")
+	fs := flag.NewFlagSet("replay", flag.ExitOnError)
+	in := fs.String("in", "", "events: JSON array file, or an ndjson trace/replay file")
+	out := fs.String("out", "replayed.ndjson", "output trace")
+	cfgJSON := fs.String("cfg", "", "config overrides (JSON); an ndjson input carries its own")
+	fs.Parse(args)
+	if st, err := os.Stat(*in); err == nil && st.IsDir() {
+		// batch mode: every *.json behaviour in the directory -> <out>/<name>.ndjson
+		ents, _ := os.ReadDir(*in)
+		os.MkdirAll(*out, 0o755)
+		n, stops := 0, 0
+		for _, e := range ents {
+			if filepath.Ext(e.Name()) != ".json" || e.Name() == "genesis.json" {
+				continue
+			}
+			raw, err := os.ReadFile(filepath.Join(*in, e.Name()))
+			if err != nil {
+				die("%v", err)
+			}
+			var events []chain.Event
+			if err := json.Unmarshal(raw, &events); err != nil {
+				die("bad behaviour %s: %v", e.Name(), err)
+			}
+			stop := replayOne(loadCfg(*cfgJSON), events, filepath.Join(*out, e.Name()[:len(e.Name())-5]+".ndjson"))
+			n++
+			if stop != "" {
+				stops++
+			}
+			if stop == "HANG" {
+				fmt.Printf("DONE behaviours=%d stopped=%d\n", n, stops)
+				os.Exit(3)
+			}
+		}
+		fmt.Printf("DONE behaviours=%d stopped=%d\n", n, stops)
+		return
+	}
+	raw, err := os.ReadFile(*in)
+	if err != nil {
+		die("%v", err)
+	}
+	var events []chain.Event
+	cfg := loadCfg(*cfgJSON)
+	if len(raw) > 0 && raw[0] == '[' {
+		if err := json.Unmarshal(raw, &events); err != nil {
+			die("bad events: %v", err)
+		}
+	} else {
+		for _, line := range splitLines(raw) {
+			var l struct {
+				Kind string                 `json:"kind"`
+				Ev   chain.Event            `json:"ev"`
+				Raw  map[string]interface{} `json:"rawcfg"`
+			}
+			if err := json.Unmarshal(line, &l); err != nil {
+				die("bad line: %v", err)
+			}
+			if l.Kind == "genesis" {
+				if l.Raw != nil {
+					b, _ := json.Marshal(l.Raw)
+					json.Unmarshal(b, &cfg)
+				}
+				continue
+			}
+			events = append(events, l.Ev)
+		}
+	}
+	stop := replayOne(cfg, events, *out)
+	fmt.Printf("DONE events=%d stop=%s\n", len(events), stop)
+	if stop == "HANG" {
+		os.Exit(3)
+	}
+}
+
+func replayOne(cfg chain.Config, events []chain.Event, out string) string {
+	c, err := chain.New(cfg)
+	if err != nil {
+		die("chain.New: %v", err)
+	}
+	tw, err := chain.NewTraceWriter(out)
+	if err != nil {
+		die("%v", err)
+	}
+	tw.Genesis(c)
+	stop := ""
+	for _, e := range events {
+		o, _ := c.Step(tw, e)
+		if o.Result == "PANIC" || o.Result == "HANG" {
+			stop = o.Result
+			break
+		}
+	}
+	tw.Close()
+	return stop
+}
+
+func splitLines(b []byte) [][]byte {
+	var out [][]byte
+	start := 0
+	for i, c := range b {
+		if c == '\n' {
+			if i > start {
+				out = append(out, b[start:i])
+			}
+			start = i + 1
+		}
+	}
+	if start < len(b) {
+		out = append(out, b[start:])
+	}
+	return out
+}
+
+// selection: function-level cases of the real RandomSP / RandomIndex.
+func cmdSelection(args []string) {
+	fs := flag.NewFlagSet("selection", flag.ExitOnError)
+	n := fs.Int("n", 500, "random RandomSP cases")
+	seed := fs.Int64("seed", 1, "random seed")
+	out := fs.String("out", "selection.ndjson", "output file")
+	fs.Parse(args)
+	cfg := chain.DefaultConfig()
+	cfg.Accounts = 8
+	c, err := chain.New(cfg)
+	if err != nil {
+		die("chain.New: %v", err)
+	}
+	cases, hangs, err := c.SelectionCases(*out, *n, *seed)
+	if err != nil {
+		die("%v", err)
+	}
+	fmt.Printf("DONE cases=%d hangs=%d\n", cases, hangs)
 }
